@@ -11,36 +11,47 @@ import pk
 QUOTES = b"'\"`"
 
 
+def ref_positions(t: bytes):
+    """the placeholder rule as a specification, written as a regular expression over tokens: the text is a sequence of
+    '...' / "..." strings (a backslash escapes the next character), `...` identifiers and other characters; the
+    placeholders are the question marks among the other characters.  (An unterminated string runs to the end.)"""
+    import re
+    tok = re.compile(rb"""'(?:\\.|[^'\\])*(?:'|\\?$)|"(?:\\.|[^"\\])*(?:"|\\?$)|`[^`]*(?:`|$)|.""", re.S)
+    out, i = [], 0
+    while i < len(t):
+        m = tok.match(t, i)
+        if m.group() == b"?":
+            out.append(i)
+        i = m.end()
+    return out
+
+
 def ref_count(t: bytes) -> int:
-    """the placeholder regex as a specification: '?' followed by an even number of quote characters"""
-    n = 0
-    q = 0
-    for c in reversed(t):
-        if c in QUOTES:
-            q += 1
-        elif c == 0x3F and q % 2 == 0:
-            n += 1
-    return n
+    return len(ref_positions(t))
 
 
 def gen_template(rng):
-    """grammar template: plain text, holes, quoted segments containing question marks"""
+    """grammar template: plain text, holes, quoted segments containing question marks - and quote characters of the other
+    kinds, escaped quotes and backslashes, doubled quotes.  -> (text, number of holes, their positions)"""
     segs = []
-    holes = 0
     for _ in range(rng.randint(1, 6)):
         r = rng.random()
         if r < 0.4:
             segs.append(rng.choice([b"SELECT ", b" FROM t WHERE a = ", b", ", b" AND b <> ", b"\n", b" x%y_z ", b" \\ "]))
         elif r < 0.7:
             segs.append(b"?")
-            holes += 1
         else:
             q = bytes([rng.choice(QUOTES)])
             # (a literal may END in an escaped backslash - LIKE ? ESCAPE '\\' - which closes normally)
             body = rng.choice([b"?", b"a?b", b"", b"??", b"x", b" ? ", b"\\\\", b"?\\\\", b"a\\\\b?"])
+            if rng.random() < 0.35:
+                others = [bytes([o]) for o in QUOTES if bytes([o]) != q]
+                body = rng.choice([b"it" + others[0] + b"s ?", others[1] + b"?", b"?" + others[0] + others[1] + b"?", others[0] + b" ? " + others[0] + b"?",
+                                   q + q + b"?", b"?" + q + q] + ([b"\\" + q + b"?", b"?\\" + q + b" ?", b"\\" + others[0] + b"?"] if q != b"`" else [b"?\\", b"\\"]))
             segs.append(q + body + q)
     # keep holes and quoted segments apart (adjacent literals would merge lexically in any SQL dialect)
     out = bytearray()
+    positions = []
     prev_plain = True
     for sg in segs:
         plain = not (sg == b"?" or sg[:1] in (b"'", b'"', b"`"))
@@ -50,9 +61,11 @@ def gen_template(rng):
             out += b" "
         if plain and not prev_plain and sg[:1].isalnum():
             out += b" "
+        if sg == b"?":
+            positions.append(len(out))
         out += sg
         prev_plain = plain
-    return bytes(out), holes
+    return bytes(out), len(positions), positions
 
 
 def gen_raw_text(rng):
@@ -65,21 +78,14 @@ def tokens(sql: str):
     return [(t.token_type.name, t.text) for t in MySQL().tokenize(sql)]
 
 
-def oracle(tpl: bytes, holes, params, got_sql: str):
+def oracle(tpl: bytes, holes, params, got_sql: str, positions=None):
     """Direct statement of the property with an independent tokenizer: the received SQL must tokenise as the
     template with each hole replaced by ONE literal token denoting the value."""
     marks = [f"zzh{i}zz" for i in range(holes)]
     parts = tpl.decode("latin1")
-    # replace holes left to right (reference scan decides which '?' are holes)
-    flags = []
-    q = 0
-    for c in reversed(tpl):
-        if c in QUOTES:
-            q += 1
-            flags.append(False)
-        else:
-            flags.append(c == 0x3F and q % 2 == 0)
-    flags.reverse()
+    # replace holes left to right: the generator's own hole positions (the reference scan when it has none)
+    hp = set(positions if positions is not None else ref_positions(tpl))
+    flags = [i in hp for i in range(len(tpl))]
     out = []
     k = 0
     for ch, f in zip(parts, flags):
@@ -114,7 +120,7 @@ def oracle(tpl: bytes, holes, params, got_sql: str):
                     if have[i][0] != "DASH":
                         return f"hole {tx}: expected -, got {have[i]}"
                     i += 1
-                if i >= len(have) or have[i][0] != "NUMBER" or int(have[i][1]) != abs(v):
+                if i >= len(have) or have[i][0] != "NUMBER" or have[i][1].lstrip("0") != (str(abs(v)).lstrip("0")):
                     return f"hole {tx}: expected number {v}, got {have[i] if i < len(have) else None}"
                 i += 1
             else:
@@ -143,23 +149,23 @@ def run(ctx: core.Ctx):
     cases = []
     for k in range(N1):
         if rng.random() < 0.7:
-            tpl, holes = gen_template(rng)
+            tpl, holes, hpos = gen_template(rng)
             grammar = True
         else:
             tpl = gen_raw_text(rng)
             holes = ref_count(tpl)
-            grammar = False
+            grammar, hpos = False, None
         qa = rng.random() < 0.3
         pos = [pk.gen_param(rng, named=False, hostile=True) for _ in range(holes)]
         flags = rng.choice([0, 1]) | (8 if qa and (holes == 0 or rng.random() < 0.5) else 0)
-        cases.append((qa, tpl, holes, pos, flags, grammar))
+        cases.append((qa, tpl, holes, pos, flags, (grammar, hpos)))
     terms = []
     for qa, tpl, holes, pos, flags, _ in cases:
         data = pk.encode_execute(qa, 3, flags, pos, [])
         terms.append(f"execute_sql {core.coq_bool(qa)} {pk.coq_stmt_lookup({3: (tpl, holes, None)})} {pk.float_tokens(pos)} {core.coq_N_list(data)}")
     model = core.run_coq_terms(ctx, "c06p", pk.HEADER, terms)
     n_hostile = 0
-    for (qa, tpl, holes, pos, flags, grammar), m in zip(cases, model):
+    for (qa, tpl, holes, pos, flags, (grammar, hpos)), m in zip(cases, model):
         data = pk.encode_execute(qa, 3, flags, pos, [])
         got = pk.impl_execute(data, qa, {3: (tpl.decode("latin1"), holes, None)})
         mm = pk.canon_model_result(m, pk.model_execute_conv)
@@ -169,17 +175,17 @@ def run(ctx: core.Ctx):
         if not pk.same_result(got, mm):
             disagreements.append(dict(kind="execute", qa=qa, tpl=tpl.decode("latin1"), params=repr(pos), impl=repr(got), model=repr(mm)))
             if grammar and witness is None:
-                why = oracle(tpl, holes, pos, got[1][0].decode("latin1")) if got[0] == "Ok" else f"execution fails with {got[1]}"
+                why = oracle(tpl, holes, pos, got[1][0].decode("latin1"), hpos) if got[0] == "Ok" else f"execution fails with {got[1]}"
                 if why:
                     witness = dict(kind="execute", template=tpl.decode("latin1"), params=repr(pos), received=repr(got), problem=why)
     samples.append(dict(kind="execute", template=cases[1][1].decode("latin1"), params=repr(cases[1][3]), model=repr(model[1])[:300]))
 
     # an always-run oracle pass over grammar templates (independent tokenizer)
-    for qa, tpl, holes, pos, flags, grammar in cases[: (150 if ctx.quick else 2000)]:
+    for qa, tpl, holes, pos, flags, (grammar, hpos) in cases[: (150 if ctx.quick else 2000)]:
         if not grammar or witness is not None:
             continue
         got = pk.impl_execute(pk.encode_execute(qa, 3, flags, pos, []), qa, {3: (tpl.decode("latin1"), holes, None)})
-        why = oracle(tpl, holes, pos, got[1][0].decode("latin1")) if got[0] == "Ok" else f"execution fails with {got[1]}"
+        why = oracle(tpl, holes, pos, got[1][0].decode("latin1"), hpos) if got[0] == "Ok" else f"execution fails with {got[1]}"
         if why:
             witness = dict(kind="execute-oracle", template=tpl.decode("latin1"), params=repr(pos), received=repr(got), problem=why)
 
@@ -208,7 +214,7 @@ def run(ctx: core.Ctx):
         c.take()
         wcases = []
         for _ in range(60 if ctx.quick else 800):
-            tpl, holes = gen_template(rng) if rng.random() < 0.8 else (gen_raw_text(rng), None)
+            tpl, holes, hpos = gen_template(rng) if rng.random() < 0.8 else (gen_raw_text(rng), None, None)
             c.feed(cl.frame(bytes([cl.COM_STMT_PREPARE]) + tpl, 0))
             pkts = cl.reassemble(c.take())
             first = pkts[0][1]
@@ -247,7 +253,7 @@ def run(ctx: core.Ctx):
                 # the property itself, with the independent tokenizer: every hole holds exactly the supplied value
                 if holes is not None and got is not None and witness is None:
                     eff = [pk.P(b"", pk.T_VAR_STRING, False, bufs[i]) if (i in bufs and not p.is_null()) else p for i, p in enumerate(pos)]
-                    why = oracle(tpl, nparams, eff, got)
+                    why = oracle(tpl, nparams, eff, got, hpos)
                     if why:
                         witness = dict(kind="wire-execute", template=tpl.decode("latin1"), params=repr(pos), long_data=repr(bufs),
                                        received=got, execution=rep + 1, problem=why)
